@@ -148,6 +148,8 @@ func runC12(c *Ctx, tier string) {
 	runC12P3(c, "C12-P3")
 	// N1
 	runCreatePoolOrder(c, "C12-N1")
+	// P4
+	runC12P4(c)
 }
 
 func runC12P1(c *Ctx) {
@@ -638,4 +640,131 @@ func init() {
 	register(&PropertyDef{ID: "C12", Run: runC12,
 		Explanation: "Decides the structural protocol conditions linearizability of metadata updates rests on, for all paths: one commit point with a closed set of writers (W1), position and constraint read atomically with reload on a lost race (P1), the optimistic branch-commit protocol with parent check and cleanup (P2), commit contents built against the retry's parent (P3), journal.Store lock discipline (L1), names registered last (N1). Does NOT decide linearizability itself (a property of all interleavings of storage operations), behaviour of non-atomic file puts, or cache coherence between processes.",
 		Assumptions: []string{"storage.Engine.PutIfNotExists is atomic on backends that support it", "closures passed to a function run under the lock state at the point the function invokes them"}})
+}
+
+// returnsGlobalUnder: fn has a return whose first result is the named package-level error, in a block
+// dominated by the given edge (succ 0 = true, 1 = false) of cond.
+func returnsGlobalUnder(fn *ssa.Function, global string, cond ssa.Value, succ int) bool {
+	for _, b := range fn.Blocks {
+		for _, in := range b.Instrs {
+			r, ok := in.(*ssa.Return)
+			if !ok || len(r.Results) == 0 {
+				continue
+			}
+			if !isGlobalLoad(r.Results[len(r.Results)-1], global) {
+				continue
+			}
+			if edgeDom(cond, b, succ) {
+				return true
+			}
+		}
+	}
+	return false
+}
+
+// runC12P4: uniqueness and compare-and-swap constraints are evaluated against the table, and passed through unchanged.
+func runC12P4(c *Ctx) {
+	p := c.P
+	c.Rule("C12-P4", "constraints are enforced: Insert rejects an existing key, Move checks both keys, commitWithConstraint rejects a missing key and a failed constraint, and the branch/pool stores pass their constraint through to the journal store unchanged")
+	tableOK := func(fn *ssa.Function) (present, absent []ssa.Value) {
+		for _, b := range fn.Blocks {
+			for _, in := range b.Instrs {
+				l, ok := in.(*ssa.Lookup)
+				if !ok || !l.CommaOk || !isFieldLoad(l.X, "table") {
+					continue
+				}
+				for _, r := range *l.Referrers() {
+					if ex, ok := r.(*ssa.Extract); ok && ex.Index == 1 {
+						present = append(present, ex)
+					}
+				}
+			}
+		}
+		return
+	}
+	check := func(owner string, want []struct {
+		global string
+		succ   int
+		what   string
+	}) {
+		fn := p.Func("(*lake/journal.Store)." + owner)
+		if fn == nil {
+			c.Undecided("C12-P4", "(*lake/journal.Store)."+owner, "anchor does not resolve")
+			return
+		}
+		for _, w := range want {
+			ok := false
+			for _, an := range fn.AnonFuncs {
+				oks, _ := tableOK(an)
+				for _, o := range oks {
+					if returnsGlobalUnder(an, w.global, o, w.succ) {
+						ok = true
+					}
+				}
+			}
+			construct := "(*lake/journal.Store)." + owner + " " + w.what
+			if ok {
+				c.OK("C12-P4", construct, fn.Pos(), "returns "+w.global)
+			} else {
+				c.Fail("C12-P4", construct, fn.Pos(), "the constraint closure no longer returns "+w.global+" when "+w.what+": names stop being unique / lost updates are accepted")
+			}
+		}
+	}
+	type w = struct {
+		global string
+		succ   int
+		what   string
+	}
+	check("Insert", []w{{"ErrKeyExists", 0, "the key already exists"}})
+	check("Move", []w{{"ErrNoSuchKey", 1, "the old key is missing"}, {"ErrKeyExists", 0, "the new key already exists"}})
+	check("commitWithConstraint", []w{{"ErrNoSuchKey", 1, "the key is missing"}})
+	// the constraint itself
+	if fn := p.Func("(*lake/journal.Store).commitWithConstraint"); fn != nil {
+		ok := false
+		for _, an := range fn.AnonFuncs {
+			for _, ci := range allCalls(an) {
+				call, isCall := ci.(*ssa.Call)
+				if !isCall || ci.Common().IsInvoke() || ci.Common().StaticCallee() != nil {
+					continue
+				}
+				if namedOf(ci.Common().Value.Type()) != "lake/journal.Constraint" {
+					continue
+				}
+				// the argument is the entry currently in the table
+				if !dependsOn(call.Call.Args[0], func(v ssa.Value) bool {
+					l, ok := v.(*ssa.Lookup)
+					return ok && isFieldLoad(l.X, "table")
+				}) {
+					continue
+				}
+				if returnsGlobalUnder(an, "ErrConstraint", call, 1) {
+					ok = true
+				}
+			}
+		}
+		if ok {
+			c.OK("C12-P4", "(*lake/journal.Store).commitWithConstraint constraint", fn.Pos(), "c(current entry) == false => ErrConstraint")
+		} else {
+			c.Fail("C12-P4", "(*lake/journal.Store).commitWithConstraint constraint", fn.Pos(), "the caller's constraint is not evaluated on the entry currently in the table with ErrConstraint on failure: the branch tip compare-and-swap degenerates into a blind write (lost updates)")
+		}
+	}
+	// pass-through
+	for _, spec := range []struct{ fn, callee string; param, arg int }{
+		{"(*lake/branches.Store).Update", "(*lake/journal.Store).Update", 3, 3},
+		{"(*lake/journal.Store).Update", "(*lake/journal.Store).commitWithConstraint", 3, 3},
+		{"(*lake/journal.Store).Delete", "(*lake/journal.Store).commitWithConstraint", 3, 3},
+	} {
+		fn := p.Func(spec.fn)
+		if fn == nil {
+			c.Undecided("C12-P4", spec.fn, "anchor does not resolve")
+			continue
+		}
+		calls := callsTo(fn, spec.callee)
+		ok := len(calls) == 1 && spec.param < len(fn.Params) && spec.arg < len(calls[0].Common().Args) && stripConv(calls[0].Common().Args[spec.arg]) == ssa.Value(fn.Params[spec.param])
+		if ok {
+			c.OK("C12-P4", spec.fn+" passes its constraint on", fn.Pos(), "-> "+spec.callee)
+		} else {
+			c.Fail("C12-P4", spec.fn+" passes its constraint on", fn.Pos(), "the constraint given by the caller is not the one handed to "+spec.callee)
+		}
+	}
 }
